@@ -356,6 +356,18 @@ def run(ctx):
             res = minmax_rank_fails(case)
             if res:
                 ctx.report(case, 'failure', res)
+    for fn_ in ('minimum', 'maximum'):
+        for dx_, dy_ in (('float32', 'float64'), ('float16', 'float64'), ('float32', 'float32')):
+            x_ = rand_coeffs(ctx.rng, (3, 2, 3), -2, 2)
+            y_ = rand_coeffs(ctx.rng, (3, 2, 3), -2, 2) * (1.0 + 2.0 ** -40)          # not representable in float32
+            y_[0] = x_[0] + np.array([0.5, -0.5, 0.25])
+            y_[2, :, 0] = 1e40 if dy_ != 'float32' else 2.0
+            case = {'op': 'minmax-dtype', 'fn': fn_, 'D': 3, 'P': 2, 'x': x_, 'y': y_, 'dx': dx_, 'dy': dy_}
+            ctx.evaluations += 1
+            ctx.count('fn=%s:mixed-dtype' % fn_)
+            res = minmax_dtype_fails(case)
+            if res:
+                ctx.report(case, 'failure', res)
     # base points exactly 0 where f is smooth there (every natural exponent of x**k; sin, erf, … )
     zero_ok = [n for n in sorted(TABLE) if TABLE[n]['dom'] in ('any', 'small', 'tan', 'unit')]
     for name in zero_ok:
@@ -505,7 +517,28 @@ def minmax_rank_fails(case):
     return None
 
 
+def minmax_dtype_fails(case):
+    """minimum / maximum of operands of DIFFERENT coefficient dtypes (float32 / float16 against float64): away from
+    ties the result has exactly the coefficients of the selected operand, whichever operand comes first"""
+    fn = getattr(algopy, case['fn'])
+    x = np.array(case['x']).astype(case['dx'])
+    y = np.array(case['y']).astype(case['dy'])
+    pick_x = (x[0] < y[0]) if case['fn'] == 'minimum' else (x[0] > y[0])
+    want = np.where(pick_x, x.astype(np.result_type(x, y)), y.astype(np.result_type(x, y)))
+    for a, b, lab in ((x, y, '%s, %s' % (case['dx'], case['dy'])), (y, x, '%s, %s' % (case['dy'], case['dx']))):
+        try:
+            with np.errstate(all='ignore'):
+                got = fn(UTPM(a.copy()), UTPM(b.copy())).data
+        except Exception as ex:
+            return 'minmax-dtype-exception: algopy.%s of %s operands raised %s' % (case['fn'], lab, type(ex).__name__)
+        if got.shape != want.shape or not np.array_equal(got, want):
+            return 'minmax-dtype: algopy.%s of %s operands does not return the coefficients of the selected operand (result dtype %s)' % (case['fn'], lab, got.dtype)
+    return None
+
+
 def replay_case(ctx, case):
+    if case.get('op') == 'minmax-dtype':
+        return minmax_dtype_fails(case)
     if case.get('op') == 'minmax-rank':
         return minmax_rank_fails(case)
     if case.get('tail'):
